@@ -3123,6 +3123,9 @@ class sptensor:
             cvals = self.vals * np.atleast_1d(other[csubs])[:, None]
             return _without_zero_values(csubs, cvals, self.shape)
         if isinstance(other, ttb.ktensor):
+            if self.nnz == 0:
+                # Nothing stored: every product / quotient is an implicit zero
+                return self.copy()
             csubs = self.subs
             cvals = np.zeros(self.vals.shape)
             R = other.weights.size
@@ -3509,6 +3512,9 @@ class sptensor:
                 cvals = self.vals / np.atleast_1d(other[csubs])[:, None]
             return ttb.sptensor(csubs, cvals, self.shape)
         if isinstance(other, ttb.ktensor):
+            if self.nnz == 0:
+                # Nothing stored: every product / quotient is an implicit zero
+                return self.copy()
             # TODO consider removing epsilon and generating nans consistent with above
             epsilon = np.finfo(float).eps
             subs = self.subs
